@@ -53,7 +53,7 @@ var c10HistoryKinds = []string{
 }
 
 var c10FinalKinds = []string{
-	"install", "install", "refresh", "refresh", "refresh", "refresh", "refresh",
+	"install", "refresh", "refresh", "refresh", "refresh",
 	"refresh-kept", "refresh-kept", "refresh-kept", "refresh-kept", "revert", "revert", "revert-to", "revert-to",
 }
 
@@ -61,17 +61,29 @@ func c10Gen(t *rapid.T) c10Case {
 	c := c10Case{Snap: rapid.SampledFrom([]string{"some-snap", "some-snap", "some-snap", "services-snap", "some-snap_foo"}).Draw(t, "snap")}
 	c.Aliases = rapid.IntRange(0, 2).Draw(t, "aliases") == 0
 	c.Final = worldGenReq(t, c.Snap, c10FinalKinds)
-	maxHist := verifkit.Size(6, 8)
-	n := rapid.IntRange(1, maxHist).Draw(t, "nhist")
+	n := rapid.SampledFrom([]int{1, 2, 3, 4, 4, 5, 5, 6, 6, 7, 7}).Draw(t, "nhist")
+	if verifkit.Thorough() {
+		n += rapid.IntRange(0, 2).Draw(t, "nhist-more")
+	}
 	if c.Final.Op == "install" {
 		n = rapid.IntRange(0, 3).Draw(t, "nhist-install")
 	}
+	// shape: install, often a larger refresh.retain (so more than two revisions pile
+	// up), a refresh-heavy middle, often a revert at the end (current not last)
+	tailRevert := n >= 3 && rapid.IntRange(0, 9).Draw(t, "tailrevert") < 4
 	for i := 0; i < n; i++ {
-		if i == 0 {
+		switch {
+		case i == 0:
 			c.History = append(c.History, worldGenReq(t, c.Snap, []string{"install"}))
-			continue
+		case i == 1 && n >= 3 && rapid.IntRange(0, 9).Draw(t, "retain-first") < 6:
+			c.History = append(c.History, worldReq{Op: "set-retain", Snap: c.Snap, Retain: rapid.IntRange(3, 5).Draw(t, "retain")})
+		case i == n-1 && tailRevert:
+			c.History = append(c.History, worldGenReq(t, c.Snap, []string{"revert", "revert", "revert-to"}))
+		case i <= 3:
+			c.History = append(c.History, worldGenReq(t, c.Snap, []string{"refresh"}))
+		default:
+			c.History = append(c.History, worldGenReq(t, c.Snap, c10HistoryKinds))
 		}
-		c.History = append(c.History, worldGenReq(t, c.Snap, c10HistoryKinds))
 	}
 	return c
 }
@@ -735,7 +747,6 @@ func TestVerifC10Witness(t *testing.T) {
 			}
 			e.Extra("witness_"+wit.fp+"_reproduces", 1)
 			e.Case(wit.fp+": "+v.Msg, true, "reproduced")
-			e.Sample(v.Msg)
 		}
 	})
 }
